@@ -190,6 +190,11 @@ def c11(run):
                 c2 = copy.deepcopy(c)
                 c2["in"]["metrics"] = True
                 out.append(c2)
+            if c["in"]["payload"] in ("invalid", "localInvalid", "undecodable"):
+                # replay-only: the header type reports its own Validate / decode failure as a soft VerifyError (still a reject)
+                c3 = copy.deepcopy(c)
+                c3["in"]["softErr"] = True
+                out.append(c3)
         return out
     cases, _ = table_flow(run, "Subscriber", "Subscriber.cfg", "C11", "TestSubscriber", "SubscriberTrace", ["C11_"], shards=2,
                           derive=with_metrics)
